@@ -13,7 +13,7 @@ import (
 func init() {
 	register(&propDef{
 		ID:       "C15",
-		Explain:  "Decided (structural necessary conditions): every outcome of gnmiUpdate bumps exactly its own category counter on every path (stale, future, suppressed; accepted => none in the callee and exactly one UpdateCount in the caller before the feed call; empty notifications => EmptyCount only); LeafCount+1 only together with AddCount+1 after a successful Tree.Add of a non-metadata leaf, LeafCount-d only together with DelCount+d with d the number of removed leaves — and under the same non-metadata restriction as the increment; checkTimestamp only moves the latest timestamp forward and is called at exit exactly when some update of the notification was accepted; all places that decide 'is this a metadata path' use element 0 of the joined index path; every Target field written after construction is accessed under one lock; Latency/window/Metadata state only under their mutex; window.slide tests every slot against the cutoff (can drop more than one per call). Round-3 addition: the amount subtracted from LeafCount is a per-leaf counter incremented only for non-metadata leaves in every scenario (a glob at the top of a delete path spans both subtrees). Round-4 additions: the (updates, deletes) dispatch table of Target.GnmiUpdate (every submitted update reaches the function that counts it); no store through a notification read out of the tree (stored messages are shared with readers holding only the node's read lock). Round-5 addition - the latency bookkeeping as decision tables: Compute keeps the batch extrema by comparison only (all 18 orderings), counts by one and accumulates sample/scale; update seals the accumulators into one slot before clearing all four, hands it to every window and exports with its own time; window.add / slide accumulate and retire total and count of the same slots and drop exactly the retired ones; exported max/min are selected among the slots' own fields, the average is total/count times the scale New gave to both sides.",
+		Explain:  "Decided (structural necessary conditions): every outcome of gnmiUpdate bumps exactly its own category counter on every path (stale, future, suppressed; accepted => none in the callee and exactly one UpdateCount in the caller before the feed call; empty notifications => EmptyCount only); LeafCount+1 only together with AddCount+1 after a successful Tree.Add of a non-metadata leaf, LeafCount-d only together with DelCount+d with d the number of removed leaves — and under the same non-metadata restriction as the increment; checkTimestamp only moves the latest timestamp forward and is called at exit exactly when some update of the notification was accepted; all places that decide 'is this a metadata path' use element 0 of the joined index path; every Target field written after construction is accessed under one lock; Latency/window/Metadata state only under their mutex; window.slide tests every slot against the cutoff (can drop more than one per call). Round-3 addition: the amount subtracted from LeafCount is a per-leaf counter incremented only for non-metadata leaves in every scenario (a glob at the top of a delete path spans both subtrees). Round-4 additions: the (updates, deletes) dispatch table of Target.GnmiUpdate (every submitted update reaches the function that counts it); no store through a notification read out of the tree (stored messages are shared with readers holding only the node's read lock). Round-5 addition - the latency bookkeeping as decision tables: Compute keeps the batch extrema by comparison only (all 18 orderings), counts by one and accumulates sample/scale; update seals the accumulators into one slot before clearing all four, hands it to every window and exports with its own time; window.add / slide accumulate and retire total and count of the same slots and drop exactly the retired ones; exported max/min are selected among the slots' own fields, the average is total/count times the scale New gave to both sides. Round-6 addition: the amount of the UpdateCount add is 1 for a single-update notification and len(updates) of the caller's notification in the atomic arm (the atomic flag replayed with both values).",
 		NotCover: "the numerical claims as such (leaf count equals stored leaves over every history; min <= exported <= max up to precision as an inequality over all sample sequences, integer truncation and overflow of the running totals, which slots a given clock reading ages out) - they quantify over runtime values; what is decided for the latency part is the bookkeeping each of them rests on, step by step",
 		Run:      runC15,
 	})
